@@ -391,6 +391,35 @@ func c14(x *mon.Ctx) {
 			add("any-mr-td", fmt.Sprintf("len%d/last-short", n), ref.Policy{AnyMrTd: bad}, quotes, nil)
 		}
 	}
+	// two listed measurements that agree under a checksum (CRC-64 / CRC-32 by the checksum's linear kernel, Adler-32 / FNV-32 by a
+	// birthday search): both stay permitted, in lists short and long, whichever comes first
+	for k := range checksums48 {
+		a, b := checksumPair(k)
+		if a == nil {
+			continue
+		}
+		qa, qb := policyQuote(r), policyQuote(r)
+		copy(qa.Body[136:184], a)
+		copy(qb.Body[136:184], b)
+		quotes := [][]byte{qa.Bytes(), qb.Bytes()}
+		for _, n := range []int{2, 8, 63, 64, 65, 200, 1000} {
+			for _, first := range []string{"a", "b"} {
+				var l [][]byte
+				for i := 0; i < n; i++ {
+					v := make([]byte, 48)
+					r.Read(v)
+					l = append(l, v)
+				}
+				i, j := n/3, n-1
+				if first == "a" {
+					l[i], l[j] = append([]byte{}, a...), append([]byte{}, b...)
+				} else {
+					l[i], l[j] = append([]byte{}, b...), append([]byte{}, a...)
+				}
+				add("any-mr-td", fmt.Sprintf("len%d/two-entries-equal-under-%s/%s-first", n, checksums48[k].name, first), ref.Policy{AnyMrTd: l}, quotes, nil)
+			}
+		}
+	}
 	// allow-lists with repeated entries among several distinct ones (lists concatenated from several sources): every listed
 	// value stays permitted, whichever entries are repeated; converted a number of times each (a conversion is a function)
 	{
